@@ -3,7 +3,10 @@
    main.drop_water, and the independent specification [cols_read] (C07).
 
    Follows /repo after commit 88a0866 (END flushes only a non-empty pending
-   residue; a key change with an empty pending residue does not flush).
+   residue; a key change with an empty pending residue does not flush) and after
+   the C07-F3/F5/F6 fixes: the second MODEL record always ends the loop; records
+   whose identity was already placed in a closed residue are skipped ([g_placed]);
+   blank chains are lettered with identifiers the file does not use ([free_ids]).
 
    The topology definition enters as a table [deftab]: residue name ->
    (class kind, alternative-name map), regenerated from /repo by the harness
@@ -46,8 +49,8 @@ Definition set_het (a : atomrec) (h : bool) : atomrec :=
 Definition water_names : list string := ["HOH"; "WAT"].
 
 (* record_type() in ["HETATM","ATOM",...] and res_name in WAT.water_residue_names.
-   record_type() is the first whitespace token of the line, NOT the record
-   name of columns 1-6 ("HETATM10000" is not "HETATM"). *)
+   record_type() is the record name of columns 1-6 (C07-F4 fix; it used to be
+   the first whitespace token, so "HETATM10000" was not "HETATM"). *)
 Definition dropped_by_drop_water (r : rec) : bool :=
   match r with
   | RAtom a => mem_str (a_tok0 a) ["HETATM"; "ATOM"] && mem_str (a_resname a) water_names
@@ -116,15 +119,23 @@ Definition chain_letters : list string :=
   map (fun c => String c EmptyString)
       (list_ascii_of_string "ABCDEFGHIJKLMNOPQRSTUVWXYZabcdefghijklmnopqrstuvwxyz0123456789").
 
+Definition same_key (a b : atomrec) : bool :=
+  (a_resseq a =? a_resseq b)%Z && (a_icode a =? a_icode b) && (a_chain a =? a_chain b).
+
+(* (chain_id, res_seq, ins_code, name) equality: membership test of [placed] *)
+Definition same_id (a b : atomrec) : bool := same_key a b && (a_name a =? a_name b).
+
 Record gst := mkG {
   g_prev : option atomrec;             (* previous_atom *)
   g_res : list atomrec;                (* residue (pending records) *)
   g_nm : nat;                          (* num_models *)
   g_count : nat;                       (* TER records seen so far *)
-  g_chains : list (string * list resid) (* chain_dict, insertion order *)
+  g_chains : list (string * list resid); (* chain_dict, insertion order *)
+  g_placed : list atomrec              (* placed: records of the residues closed so far
+                                          (their identities, as read - before renaming) *)
 }.
 
-Definition g0 : gst := mkG None [] 0 0 [].
+Definition g0 : gst := mkG None [] 0 0 [] [].
 
 Fixpoint has_key {A} (k : string) (l : list (string * A)) : bool :=
   match l with [] => false | (k', _) :: r => (k =? k') || has_key k r end.
@@ -141,9 +152,6 @@ Fixpoint add_res (k : string) (r : resid) (l : list (string * list resid)) :=
   | (k', rs) :: t => if k =? k' then (k', (rs ++ [r])%list) :: t else (k', rs) :: add_res k r t
   end.
 
-Definition same_key (a b : atomrec) : bool :=
-  (a_resseq a =? a_resseq b)%Z && (a_icode a =? a_icode b) && (a_chain a =? a_chain b).
-
 Section Group.
   Variable tab : deftab.
 
@@ -154,56 +162,64 @@ Section Group.
     | Some p =>
         mkG (g_prev st) (g_res st) (g_nm st) (g_count st)
             (add_res (a_chain p) (create_residue tab (g_res st) (a_resname p)) (g_chains st))
+            (g_placed st)
     end.
 
   Definition clear_res (st : gst) : gst :=
-    mkG (g_prev st) [] (g_nm st) (g_count st) (g_chains st).
+    mkG (g_prev st) [] (g_nm st) (g_count st) (g_chains st) (g_placed st).
+
+  (* placed.update(identities of residue) *)
+  Definition place (st : gst) : gst :=
+    mkG (g_prev st) (g_res st) (g_nm st) (g_count st) (g_chains st) (g_placed st ++ g_res st)%list.
 
   Inductive gres := GCont (st : gst) | GBreak (st : gst) | GExc.
 
   Definition is_nil {A} (l : list A) : bool := match l with [] => true | _ => false end.
 
-  Definition gstep (nchains : nat) (st : gst) (r : rec) : gres :=
+  (* [free] = the chain letters no ATOM/HETATM record of the file uses *)
+  Definition gstep (nchains : nat) (free : list string) (st : gst) (r : rec) : gres :=
     match r with
     | RAtom a0 =>
         let lettered :=
           if (a_chain a0 =? "") && (1 <? nchains)%nat && negb (mem_str (a_resname a0) ["WAT"; "HOH"])
-          then option_map (set_chain a0) (nth_error chain_letters (g_count st))
+          then option_map (set_chain a0) (nth_error free (g_count st))
           else Some a0 in
         match lettered with
         | None => GExc       (* "Too many chains exist in biomolecule" *)
         | Some a =>
+            if existsb (same_id a) (g_placed st) then GCont st   (* listed again: skipped *)
+            else
             let st1 := mkG (g_prev st) (g_res st) (g_nm st) (g_count st)
-                           (ensure_chain (a_chain a) (g_chains st)) in
+                           (ensure_chain (a_chain a) (g_chains st)) (g_placed st) in
             let st2 :=
               match g_prev st1 with
               | Some p =>
                   if negb (is_nil (g_res st1)) && negb (same_key a p)
-                  then clear_res (flush st1) else st1
+                  then clear_res (flush (place st1)) else st1
               | None => st1
               end in
-            GCont (mkG (Some a) (g_res st2 ++ [a])%list (g_nm st2) (g_count st2) (g_chains st2))
+            GCont (mkG (Some a) (g_res st2 ++ [a])%list (g_nm st2) (g_count st2) (g_chains st2)
+                       (g_placed st2))
         end
     | REnd =>
-        GCont (clear_res (if is_nil (g_res st) then st else flush st))
+        GCont (clear_res (if is_nil (g_res st) then st else flush (place st)))
     | RModel =>
-        let st1 := mkG (g_prev st) (g_res st) (S (g_nm st)) (g_count st) (g_chains st) in
-        if is_nil (g_res st1) then GCont st1
-        else if (1 <? g_nm st1)%nat then GBreak (flush st1)
+        let st1 := mkG (g_prev st) (g_res st) (S (g_nm st)) (g_count st) (g_chains st) (g_placed st) in
+        if (1 <? g_nm st1)%nat then GBreak (if is_nil (g_res st1) then st1 else flush st1)
         else GCont st1
-    | RTer => GCont (mkG (g_prev st) (g_res st) (g_nm st) (S (g_count st)) (g_chains st))
+    | RTer => GCont (mkG (g_prev st) (g_res st) (g_nm st) (S (g_count st)) (g_chains st) (g_placed st))
     end.
 
   (* after the loop ended without break *)
   Definition gfinish (st : gst) : gst :=
     if negb (is_nil (g_res st)) && (g_nm st <=? 1)%nat then flush st else st.
 
-  Fixpoint gloop (nchains : nat) (st : gst) (l : list rec) : option gst :=
+  Fixpoint gloop (nchains : nat) (free : list string) (st : gst) (l : list rec) : option gst :=
     match l with
     | [] => Some (gfinish st)
     | r :: rest =>
-        match gstep nchains st r with
-        | GCont st' => gloop nchains st' rest
+        match gstep nchains free st r with
+        | GCont st' => gloop nchains free st' rest
         | GBreak st' => Some st'
         | GExc => None
         end
@@ -211,6 +227,13 @@ Section Group.
 
   Definition count_ter (l : list rec) : nat :=
     List.length (filter (fun r => match r with RTer => true | _ => false end) l).
+
+  (* chain ids of every ATOM/HETATM record of pdblist (all models), as read *)
+  Definition used_chains (l : list rec) : list string :=
+    flat_map (fun r => match r with RAtom a => [a_chain a] | _ => [] end) l.
+
+  Definition free_ids (l : list rec) : list string :=
+    filter (fun c => negb (mem_str c (used_chains l))) chain_letters.
 
   (* keys sorted as python sorts str (code points), with "" renamed to "ZZ" *)
   Definition sort_key (k : string) : string := if is_empty k then "ZZ" else k.
@@ -227,7 +250,7 @@ Section Group.
 
   (* Biomolecule(pdblist, definition).residues ; None = Exception raised *)
   Definition group (l : list rec) : option (list resid) :=
-    match gloop (1 + count_ter l) g0 l with
+    match gloop (1 + count_ter l) (free_ids l) g0 l with
     | None => None
     | Some st => Some (concat (map snd (sort_chains (g_chains st))))
     end.
